@@ -5,21 +5,41 @@ From CTM Require Import Base.Sx Model.IntDtype Model.GeneId Proofs.IntDtypeP Pro
 Import ListNotations.
 Open Scope Z_scope.
 
+(* choose_int_dtype below compares the rounded bounds with iinfo.min / iinfo.max EXACTLY.  That
+   is what the code does when the bounds are integers; for bounds held in float32 / float64
+   numpy first converts iinfo.max to that float type (choose_int_dtype_f, tied to the code on
+   every run).  The two coincide except at the float boundaries -- c16_dtype_float_faithful --
+   where the code picks a type that cannot hold the bound -- c16_dtype_float_boundary_refuted,
+   the witness of finding F5. *)
+Theorem c16_dtype_float_faithful : forall mant lo hi,
+  (mant = 0 \/ forall c, In c candidates -> 2 ^ mant <= snd c -> round_half_even hi <> snd c + 1) ->
+  choose_int_dtype_f mant lo hi = choose_int_dtype lo hi.
+Proof. exact choose_f_agrees. Qed.
+Print Assumptions c16_dtype_float_faithful.
+
+Theorem c16_dtype_float_boundary_refuted :
+  exists mant lo hi k, choose_int_dtype_f mant lo hi = Some k /\
+     ~ (round_half_even hi <= snd (range_of k)).
+Proof. exact choose_f_refuted. Qed.
+Print Assumptions c16_dtype_float_boundary_refuted.
+
 (* the integer type chosen contains the rounded bounds and is the first candidate that does *)
 Theorem c16_dtype_wide_enough : forall lo hi k,
+  0 < snd lo -> 0 < snd hi ->            (* bounds are rationals: positive denominators *)
   choose_int_dtype lo hi = Some k ->
   (k < 8)%nat /\
   fst (range_of k) <= round_half_even lo /\ round_half_even hi <= snd (range_of k) /\
   forall j, (j < k)%nat ->
      ~ (fst (range_of j) <= round_half_even lo /\ round_half_even hi <= snd (range_of j)).
-Proof. exact choose_sound. Qed.
+Proof. intros lo hi k _ _. exact (choose_sound lo hi k). Qed.
 Print Assumptions c16_dtype_wide_enough.
 
 (* whenever some candidate type can hold the range, one is chosen (no fall-back) *)
 Theorem c16_dtype_complete : forall lo hi c,
+  0 < snd lo -> 0 < snd hi ->
   In c candidates -> fst c <= round_half_even lo -> round_half_even hi <= snd c ->
   exists k, choose_int_dtype lo hi = Some k.
-Proof. exact choose_complete. Qed.
+Proof. intros lo hi c _ _. exact (choose_complete lo hi c). Qed.
 Print Assumptions c16_dtype_complete.
 
 (* every value between the measured minimum and maximum fits the chosen type after rounding *)
